@@ -265,7 +265,8 @@ func (d *Data) CopyPropertiesFrom(src datastore.DataService, fs storage.FilterSp
 	}
 	d.NumChannels = d2.NumChannels
 
-	return nil
+	// the image volume's own properties (block size, resolution, background, ...)
+	return d.Data.CopyPropertiesFrom(d2.Data, fs)
 }
 
 func (d *Data) MarshalJSON() ([]byte, error) {
